@@ -472,6 +472,36 @@ def dynamic(pid, tier, seed, cases):
             res["features"][k] = res["features"].get(k, 0) + 1
             if run.is_crash(ji):
                 res["violations"].append({"case": c, "impl": ji, "what": "the library crashed: %s" % json.dumps(ji)[:300]})
+    if pid == "C19":
+        # the extracted grammar reader of Spec/C19Grammar.v on the scripts the real tool wrote: for documents that meet
+        # doc_names_valid (the hypothesis of C19_generated_lines) every script must be accepted
+        sub = [c for c in cases if c.raw_yaml is None and isinstance(c.doc, dict)][: (700 if tier == "quick" else 8000)]
+        implg = run.run_impl_only(sub)
+        items, back = [], {}
+        for c in sub:
+            ji = run.normalise(implg[c.cid])
+            if props.outcome(ji)[0] != "ok":
+                continue
+            g = ji["gen"]["ok"]
+            texts = [g["main"]["script"]] + [w["script"] for _, w in g.get("subs", [])]
+            items.append((c.cid, c.doc, c.opts, c.emit_version, c.partial, texts))
+            back[c.cid] = c
+        try:
+            gr = run.run_grammar_spec(items)
+        except Exception as e:
+            gr = None
+            res["proof_broken"] = "the extracted grammar reader (coq/Spec/C19Grammar.v) failed to run: %s" % str(e)[-300:]
+        if gr is None and "proof_broken" not in res:
+            res["proof_broken"] = "the extracted grammar reader (coq/Spec/C19Grammar.v) could not be built"
+        for cid, v in (gr or {}).items():
+            res["evaluations"] += 1
+            k = "grammar:names-valid:%s accepted:%s" % (v["names_valid"], all(v["accepted"]))
+            res["features"][k] = res["features"].get(k, 0) + 1
+            if v["names_valid"] and not all(v["accepted"]):
+                res["violations"].append({"case": back[cid], "impl": None,
+                                          "what": "names are valid linker identifiers (doc_names_valid) but the grammar reader of "
+                                                  "Spec/C19Grammar.v refuses script #%d written by the real tool"
+                                                  % v["accepted"].index(False)})
     if pid == "C13":
         # executed, not proved: the header is a self-contained C file (gcc -fsyntax-only) when the type is a builtin
         import subprocess, tempfile
